@@ -1,6 +1,8 @@
+import MypyVerif.Gen.BindCfg
 /-
-Model of mypy's actual-to-formal mapping and arity / keyword diagnostics — hand-written, import-free,
-executable.
+Model of mypy's actual-to-formal mapping and arity / keyword diagnostics — hand-written, executable;
+imports only the generated constant of `Gen/BindCfg.lean` (translate/c12bind.py: one observed dispatch
+fact of the mapper under check).
 
   mypy/argmap.py     map_actuals_to_formals              ↦ `mapActualsToFormals`
   mypy/checkexpr.py  check_argument_count                ↦ `checkArgumentCount`
@@ -154,10 +156,15 @@ def stepNamed (F : List Formal) (s : St) (ai : Nat) (x : Name) : St :=
     | some j2 => s.add j2 ai
     | none => s
 
-/-- one key of a `**TypedDict` actual (note: no `!= ARG_STAR` test here) -/
+/-- one key of a `**TypedDict` actual.  In the code as found this branch has no `!= ARG_STAR` test
+    (`Cfg.typedDictKeyMayNameStarArgs = true`, F9 iii); once repaired it reads like the keyword branch. -/
 def stepKey (F : List Formal) (ai : Nat) (s : St) (x : Name) : St :=
   match nameIndex F x with
-  | some j => s.add j ai
+  | some j =>
+    if Cfg.typedDictKeyMayNameStarArgs || kindAt F j ≠ some .star then s.add j ai
+    else match star2Index F with
+      | some j2 => s.add j2 ai
+      | none => s
   | none =>
     match star2Index F with
     | some j2 => s.add j2 ai
